@@ -63,22 +63,26 @@ Definition bcs_list_eq (a b : list bcs) : bool :=
                          && snap_eq (bs_snap x) (bs_snap y) && Qeq_bool (s_met (bs_snap x)) (s_met (bs_snap y)) && go a' b'
    | _, _ => false end) a b.
 
-(* the conclusion of C10_ms_roundtrip for one query, as a boolean (tol = 0 on the exact stream) *)
-Definition snap_spec_ok (tol : Q) (init : Q) (l : list bcs) (o : Q) (s : snap) : bool :=
-  let c := snd (active_at_time init l o) in
+(* the conclusion of C10_ms_roundtrip for one query, as a boolean (tol = 0 on the exact stream).  The active change is
+   computed once; [on_gridb tbl ((o - fst tc) / bl)] is [time_on_gridb tbl init l o] unfolded. *)
+Definition snap_spec_ok (exact : bool) (tol : Q) (init : Q) (l : list bcs) (o : Q) (s : snap) : bool :=
+  let tc := active_at_time init l o in
+  let c := snd tc in
   let bl := beat_len (bs_bpm c) in
   let t := time_of init l s in
   (* within 1/192 beat at the active tempo *)
   Qle_bool (Qabs (t - o)) (bl / 192 + tol)
   (* exact when the time is on the snap grid relative to the active change *)
-  && (negb (time_on_gridb tbl init l o) || q_close tol t o)
-  (* a position normalised under the active metronome *)
-  && (0 <=? s_m s)%Z && Qle_bool 0 (s_b s) && Qlt_bool (s_b s) (bs_met c) && Qeq_bool (s_met s) (bs_met c).
+  && (negb (on_gridb tbl ((o - fst tc) / bl)) || q_close tol t o)
+  (* a position normalised under the active metronome (exact stream only: binary64 rounding legitimately moves a
+     time across a tempo change, which changes the active metronome) *)
+  && (negb exact || ((0 <=? s_m s)%Z && Qle_bool 0 (s_b s) && Qlt_bool (s_b s) (bs_met c) && Qeq_bool (s_met s) (bs_met c))).
 
 (* the conclusion of C10_beats on the (time, cumulative beat) pairs *)
 Definition beats_time_ok (tol : Q) (init : Q) (l : list bcs) (ob : list (Q * Q)) : bool :=
-  forallb (fun p => Qle_bool (Qabs (snd p - beats_at init l (fst p))) ((1 # 192) + tol)
-                    && (negb (time_on_gridb tbl init l (fst p)) || q_close tol (snd p) (beats_at init l (fst p)))) ob
+  forallb (fun p => let ba := Qred (beats_at init l (fst p)) in
+                    Qle_bool (Qabs (snd p - ba)) ((1 # 192) + tol)
+                    && (negb (time_on_gridb tbl init l (fst p)) || q_close tol (snd p) ba)) ob
   && forallb (fun p1 => forallb (fun p2 => negb (Qle_bool (fst p1) (fst p2)) || Qle_bool (snd p1) (snd p2 + tol)) ob) ob.
 
 Definition check (c : c10case) : verdict :=
@@ -100,7 +104,7 @@ Definition check (c : c10case) : verdict :=
          spec_ok := negb wf || match out with
                     | None => false
                     | Some ss => (length ss =? length os)%nat
-                                 && forallb (fun p => snap_spec_ok tol init l (fst p) (snd p)) (combine os ss)
+                                 && forallb (fun p => snap_spec_ok exact tol init l (fst p) (snd p)) (combine os ss)
                     end;
          wf_ok := wf |}
   | CBeats tol init l qs os out =>
